@@ -147,13 +147,15 @@ Definition m_delete (c : call) (v : sfv) : res :=
 
 (* ---- substitute.go / substitute-if.go / nsubstitute*.go ----------------------------------------- *)
 (* parseSubstituteArgs looks the keywords up one by one (GetArgsKeyValue): an unknown keyword such as
-   :test-not is silently ignored; :count nil and a negative :count leave count = -1, which replace()
-   turns into len(seq).  maybe() decrements the count for every element it LOOKS AT. *)
+   :test-not is silently ignored; :count nil leaves count = -1, which replace() turns into len(seq); a
+   negative :count is clamped to 0.  maybe() returns at once when the count is used up, and decrements
+   it for every element it REPLACES; the index loop stops as soon as the count reaches 0. *)
 Fixpoint sub_loop (p : Z -> bool) (new : Z) (w : list Z) (n : Z) : list Z :=
   match w with
   | [] => []
-  | x :: t => let x' := if p x then new else x in
-              if n - 1 <=? 0 then x' :: t else x' :: sub_loop p new t (n - 1)
+  | x :: t => if n <=? 0 then w
+              else if p x then new :: sub_loop p new t (n - 1)
+              else x :: sub_loop p new t n
   end.
 Definition m_sub_match (c : call) : Z -> bool :=
   if is_if (c_fn c) then if_match (c_pred c) (c_key c)
@@ -164,7 +166,7 @@ Definition m_substitute (c : call) : res :=
   | s => let l := elems s in
          let start := match c_start c with Some n => n | None => 0%nat end in
          let e := norm_end (length l) (c_end c) in
-         let n := match c_count c with CNum z => if z <? 0 then Z.of_nat (length l) else z | _ => Z.of_nat (length l) end in
+         let n := match c_count c with CNum z => if z <? 0 then 0 else z | _ => Z.of_nat (length l) end in
          let w := slice start e l in
          let w' := if c_from_end c then rev (sub_loop (m_sub_match c) (c_new c) (rev w) n)
                    else sub_loop (m_sub_match c) (c_new c) w n in
